@@ -74,7 +74,7 @@ impl<'n> TryFromNode<'n> for Field {
 
         if let Some(ref_name) = node.attribute("ref") {
             let (xml_name, namespace_ref) = split_type(ref_name);
-            let rust_name = rename_keywords(&to_snake_case(xml_name)).to_string();
+            let rust_name = as_field_name(xml_name);
 
             if ref_name.starts_with("xml") {
                 /* This is a reference to an XML type */
@@ -143,7 +143,7 @@ impl<'n> TryFromNode<'n> for Field {
             .ok_or_else(|| WriterError::attribute_missing(&node, "name"))?
             .to_string();
 
-        let rust_name = rename_keywords(&to_snake_case(&xml_name)).to_string();
+        let rust_name = as_field_name(&xml_name);
 
         let rust_type = node
             .attribute("type")
@@ -319,7 +319,16 @@ pub fn as_rust_type(node_type: &str, doc: &RustDocument) -> RustFieldType {
 
 pub fn as_field_name(xml_name: &str) -> String {
     let field_name = to_snake_case(xml_name);
-    rename_keywords(&field_name).to_string()
+    not_starting_with_a_digit(rename_keywords(&field_name).to_string())
+}
+
+/// an identifier cannot start with a digit (an XML name should not either, but may)
+pub fn not_starting_with_a_digit(identifier: String) -> String {
+    if identifier.starts_with(|c: char| c.is_numeric()) {
+        format!("_{identifier}")
+    } else {
+        identifier
+    }
 }
 
 /// The PascalCase type name for an XML name; `Self` is the only keyword of that form and cannot
@@ -330,7 +339,7 @@ pub fn as_type_name(xml_name: &str) -> String {
         "Self" => "Self_".to_string(),
         // a name made of separators only, such as `_`
         "" => "Unnamed".to_string(),
-        _ => type_name,
+        _ => not_starting_with_a_digit(type_name),
     }
 }
 
